@@ -83,6 +83,10 @@ func goType(t TypeInfo) (reflect.Type, error) {
 		if err != nil {
 			return nil, err
 		}
+		if !keyType.Comparable() {
+			// e.g. map<frozen<list<int>>, text>: Go has no map type for it, reflect.MapOf would panic
+			return nil, fmt.Errorf("cannot create Go type for a CQL map with key type %s (Go type %s is not comparable)", t.(CollectionType).Key, keyType)
+		}
 		return reflect.MapOf(keyType, valueType), nil
 	case TypeVarint:
 		return reflect.TypeOf(*new(*big.Int)), nil
